@@ -285,10 +285,7 @@ func init() {
 		Rule: "random histories of 5-14 API calls on ONE yae.Expr: RegisterFun (12 host functions plus 12 that collide with built-ins or with each other: same monomorphic key with another behaviour, polymorphic signature under a built-in's name), RegisterOperator, UseCompiler (vm / closure / interp / closure.DebugCompile), UseBuiltIn(false), Compile (fixed programs incl. ill-typed and unparseable ones, and type-directed random ones over the functions registered so far), invocation of ANY Callable obtained so far (same values, fresh values, a missing name, a mistyped name); the model's EngineVm.run (the engine whose vm back end compiles to bytecode and runs the machine; a refusal of the bytecode compiler is a compile error) answers the whole history, compared output by output. Non-trivial = every history; distinct = distinct request.",
 		Gen: func(r *rand.Rand, n int, thorough bool) []Case {
 			var cs []Case
-			if thorough {
-				// ≈ 3 minutes in the model (three sources of 66 000 members): thorough tier only
-				cs = append(cs, engineRefusalCase())
-			}
+			cs = append(cs, engineRefusalCase())
 			for i := 0; i < n; i++ {
 				cs = append(cs, engineHistoryCase(r))
 			}
